@@ -26,6 +26,7 @@ import (
 	"github.com/olric-data/olric/internal/cluster/partitions"
 	"github.com/olric-data/olric/internal/protocol"
 	"github.com/olric-data/olric/internal/verifhook"
+	"github.com/olric-data/olric/pkg/storage"
 )
 
 var (
@@ -63,12 +64,42 @@ func (dm *DMap) unlockKey(ctx context.Context, key string, token []byte) error {
 	}
 	verifhook.At("unlock.checked", dm.name, key)
 
-	// release it.
-	_, err = dm.deleteKeys(ctx, key)
+	// release it, unless it timed out and was taken by someone else since the check.
+	err = dm.deleteKeyIfValue(key, token)
+	if errors.Is(err, ErrNoSuchLock) {
+		return err
+	}
 	if err != nil {
 		return fmt.Errorf("unlock failed because of delete: %w", err)
 	}
 	return nil
+}
+
+// deleteKeyIfValue deletes the key if its copy on this node, the partition owner, still
+// holds the given value. The check runs under the fragment lock, the same lock the
+// conditional Put of Lock runs under.
+func (dm *DMap) deleteKeyIfValue(key string, value []byte) error {
+	hkey := partitions.HKey(dm.name, key)
+	part := dm.getPartitionByHKey(hkey, partitions.PRIMARY)
+	f, err := dm.loadOrCreateFragment(part)
+	if err != nil {
+		return err
+	}
+
+	f.Lock()
+	defer f.Unlock()
+
+	entry, err := f.storage.Get(hkey)
+	if err == nil {
+		if isKeyExpired(entry.TTL()) || !bytes.Equal(entry.Value(), value) {
+			return ErrNoSuchLock
+		}
+	} else if !errors.Is(err, storage.ErrKeyNotFound) {
+		return err
+	}
+	// Without a local copy the key lives on a previous owner or on the replicas, where
+	// the caller found it.
+	return dm.deleteOnCluster(hkey, key, f)
 }
 
 // Unlock takes key and token and tries to unlock the key.
@@ -197,8 +228,20 @@ func (dm *DMap) leaseKey(ctx context.Context, key string, token []byte, timeout 
 	}
 	verifhook.At("lease.checked", dm.name, key)
 
-	// update
-	err = dm.Expire(ctx, key, timeout)
+	// update, unless it timed out and was taken by someone else since the check.
+	env := newEnv(ctx)
+	env.putConfig = &PutConfig{OnlyUpdateTTL: true, onlyIfValue: token}
+	env.dmap = dm.name
+	env.key = key
+	env.timeout = timeout
+	err = dm.put(env)
+	if errors.Is(err, ErrKeyNotFound) {
+		// timed out since the check
+		return ErrNoSuchLock
+	}
+	if errors.Is(err, ErrNoSuchLock) {
+		return err
+	}
 	if err != nil {
 		return fmt.Errorf("lease failed: %w", err)
 	}
